@@ -27,9 +27,14 @@ open AGV AGV.C04
 #print axioms constraints_after_rule
 #print axioms matchCore_rule_failure
 #print axioms AGV.C04.constraintLoop_nil
-#print axioms matchCore_constraint_failure_keeps_rule_bindings
-#print axioms no_trace_counterexample
-#print axioms rejected_candidate_influences_outcome
+#print axioms matchCore_no_trace
+#print axioms isolate_simulates
+#print axioms isolate_agrees
+#print axioms all_s
+#print axioms isolate_example
+#print axioms matchCore_constraint_failure_restores_env
+#print axioms matches_constraint_failure_no_trace
+#print axioms rejected_candidate_leaves_no_trace
 #print axioms exactMatch_not_trans_example
 #print axioms all_notrace
 #print axioms all_ex
